@@ -110,8 +110,6 @@ type program struct {
 	raw                    string      // a program outside the mini language: Go source with @@ after every package-level name and @MAIN@ for main
 	seq                    *seqProg    // a program of the operation-sequence stream (opseq.go): Model/ChanSeq.lean is its second oracle
 	predict                *prediction // what a recorded defect of the frozen tree makes of this program (forms.go); nil: it must behave as under gc
-	rangeTarget, rangeLast int         // range-kinds programs, see resolve
-	doneOff                bool        // not run under the context modes with a Done channel (steps around a recorded defect)
 }
 
 func (p *program) protoLine(level string, fp0, fuel int, seed uint64) string {
